@@ -2,7 +2,7 @@ import JadeModel.Proofs.SystemUniqueRowsDefs
 
 set_option linter.unusedSimpArgs false
 
-/-! Rows written by nodes, in EVERY execution: definitions (see `SystemUniqueNode`). -/
+/-! Rows written by nodes, in EVERY execution: the definitions of `SystemUniqueNode` and `SystemUniqueTrace`. -/
 
 namespace Jade.Sys
 
@@ -32,6 +32,26 @@ structure NodeW (s : Sys) : Prop where
 
 theorem nodeW_init (sc : Scn) : NodeW (init sc) := by
   refine ⟨?_, ?_, ?_, ?_, ?_, ⟨?_, ?_⟩⟩ <;> simp [init]
+
+/-- the node runners' own records (`seen` = the rows a runner wrote) -/
+structure NodeS (s : Sys) : Prop where
+  queuedSeen : ∀ p a n, s.procs p = .node a n → ∀ j ∈ n.queued, ∀ r ∈ n.seen, r.job ≠ j
+  runningSeen : ∀ p a n, s.procs p = .node a n → ∀ j ∈ n.running, ∀ r ∈ n.seen, r.job ≠ j
+  /-- a runner writes rows for jobs of its own batch only -/
+  seenBatch : ∀ p a n, s.procs p = .node a n → ∃ B ∈ s.batches, B.hid = some n.hid ∧ ∀ r ∈ n.seen, r.job ∈ B.jobs
+  seenNodup : ∀ p a n, s.procs p = .node a n → (n.seen.map (·.job)).Nodup
+
+theorem nodeS_init (sc : Scn) : NodeS (init sc) := by
+  refine ⟨?_, ?_, ?_, ?_⟩ <;> simp [init]
+
+/-- some node runner has written a row for `j` -/
+def NodeWrote (s : Sys) (j : JobId) : Prop := ∃ p a n, s.procs p = .node a n ∧ ∃ r ∈ n.seen, r.job = j
+
+/-- the event is a node writing a row for job `j` (`_complete` or the node-level `cancel()`) -/
+def Op.nodeWrites (j : JobId) : Op → Bool
+  | .nodeRow _ k => k == j
+  | .nodeCancel _ k => k == j
+  | _ => false
 
 #realize_aux Jade
 
